@@ -393,6 +393,7 @@ def run_case(case, ctx):
                     compare(ctx, desc, fmt, a, ex[a["name"]],
                             expected[k][a["name"]], iface, what)
             ctx.count("reads")
+            ctx.evaluated()
             ctx.label("reader=" + iface)
         ctx.label("fmt=" + fmt, *["present=" + p for p in presentations])
         ranks = sorted({len(a["shape"]) for a in case["attrs"]})
